@@ -1640,8 +1640,9 @@ class ColangParser:
         )
 
     def _parse_continue(self):
+        # `pass` is a statement that does nothing, `continue` jumps to the next iteration
         self.current_element = {
-            "continue": True,
+            ("pass" if self.main_token == "pass" else "continue"): True,
         }
         self.branches[-1]["elements"].append(self.current_element)
 
